@@ -70,8 +70,8 @@ CLAIMED = {
             "DESIGN.md §7 C12"),
     "C13": ("exploration",
             "property-based testing (proptest) + exhaustive sweeps (every bit of 12 base requests, every MAC length): mutated signed requests through the real front door against an independent RFC 8945 MAC/time reference",
-            "UPDATE and AXFR requests signed by hickory's client side go through VerifFrontDoor → Catalog → SqliteZoneHandler under the virtual clock: 5 request kinds × 8 key sets × 3 HMAC algorithms × clock positions around the fudge window × 12 mutation families (bit flips, byte sets, count edits, TSIG field re-encodings, MAC truncation to every length, TSIG removed/duplicated/not last). Soundness: zone changed or zone data in the reply ⇒ the harness's own RFC 8945 digest over the received octets verifies at full length with a configured key and |now−time| ≤ fudge. Completeness: the unmodified request takes effect, its reply verifies with the client verifier, and every single-bit flip of the reply is rejected.",
-            "Trusts refm/tsig_ref.rs and ring's HMAC. Header ID, TSIG class/TTL, key-name case and octets after the last counted record are not covered by the MAC by design and modelled as such. Four known findings excluded by signature.",
+            "UPDATE and AXFR requests signed by hickory's client side go through VerifFrontDoor → Catalog → SqliteZoneHandler under the virtual clock: 5 request kinds × 8 key sets × 3 HMAC algorithms × clock positions around the fudge window × 12 mutation families (bit flips, byte sets, count edits, TSIG field re-encodings, MAC truncation to every length, TSIG removed/duplicated/not last). Soundness: zone changed or zone data in the reply ⇒ the harness's own RFC 8945 digest over the received octets verifies at full length with a configured key and |now−time| ≤ fudge. Completeness: the unmodified request takes effect, its reply verifies with the client verifier, and every single-bit flip of the reply is rejected. A further sub-property builds the handler the way the server binary does (SqliteZoneHandler::try_from_config: zone file, TSIG key files, journal), half of the cases after a restart that recovers the zone from the journal, and judges with the same oracle.",
+            "Trusts refm/tsig_ref.rs and ring's HMAC. Header ID, TSIG class/TTL, key-name case and octets after the last counted record are not covered by the MAC by design and modelled as such. The four findings of the first runs are repaired in /repo; none is open.",
             "DESIGN.md §7 C13"),
     "C14": ("fault_enumeration",
             "crash-point enumeration: for generated update histories on an on-disk journal every durable journal state (row count after each SQLite commit, observed through update/commit hooks) is a stop point (exhaustive per history); recovery compared with whole-message boundary states; second-level stops sampled",
